@@ -46,6 +46,13 @@ func fixedScenarios() []*Scenario {
 		{Tracing: true, ByDeadline: true, Starts: []int{bOK}, Readies: []int{bOK}, Shuts: []int{bOK, bOK}, Stops: []int{bOK}, Reqs: []Rel{{Kind: "D"}, {Kind: "H", J: 0}}},
 		{ByDeadline: true, Starts: []int{bOK, bBlock}, Stops: []int{bOK}},
 		{Tracing: true, Shuts: []int{bOK}, Stops: []int{bOK, bBlock, bOK}, Reqs: []Rel{{Kind: "D"}}},
+		// a hijacked connection whose exchange outlives Start; a request that finishes late in the drain with a short
+		// write timeout; a Reload whose caller gives up while it waits for its turn, and reloads after it
+		{Metrics: true, Starts: []int{bOK}, Readies: []int{bOK}, Shuts: []int{bOK}, Stops: []int{bOK}, Reqs: []Rel{{Kind: "J"}, {Kind: "D"}}},
+		{Proto: pTLS, Stops: []int{bOK}, Reqs: []Rel{{Kind: "J"}}},
+		{ShortWrite: true, Shuts: []int{bOK}, Stops: []int{bOK}, Reqs: []Rel{{Kind: "D"}, {Kind: "H", J: 0}}},
+		{NReload: 1, Stops: []int{bOK}, Rounds: []Round{{Trig: 0, CancelAt: -1, Pair: true}, {Trig: 0, CancelAt: -1, CtxEnds: true}, {Trig: 0, CancelAt: -1}, {Trig: 1, CancelAt: -1}}},
+		{NReload: 2, Stops: []int{bOK}, Rounds: []Round{{Trig: 1, CancelAt: -1, Pair: true}, {Trig: 0, Beh: []int{bOK, bErr}, CancelAt: -1, CtxEnds: true}, {Trig: 1, CancelAt: -1}}},
 		// a SIGHUP during the shutdown sequence (with and without reload hooks): the process must survive it
 		{NReload: 1, Shuts: []int{bOK, bOK}, Stops: []int{bOK}, LateHup: 1},
 		{NReload: 2, Metrics: true, Stops: []int{bOK, bOK}, Reqs: []Rel{{Kind: "D"}}, LateHup: 2},
@@ -219,6 +226,29 @@ func genScenario(r *hx.Rand, tier string) *Scenario {
 		for i, q := range sc.Reqs {
 			if q.Kind == "N" || (q.Kind == "H" && q.J >= len(sc.Shuts)) {
 				sc.Reqs[i] = Rel{Kind: "D"}
+			}
+		}
+	}
+	// in-flight requests of other kinds
+	if len(sc.Reqs) < 3 && r.Chance(1, 6) {
+		sc.Reqs = append(sc.Reqs, Rel{Kind: "J"}) // a hijacked connection whose exchange outlives Start
+	}
+	if r.Chance(1, 8) {
+		sc.ShortWrite, sc.Metrics, sc.Tracing, sc.MetDead, sc.MetricsRace = true, false, false, false, false
+		hasD := false
+		for _, q := range sc.Reqs {
+			hasD = hasD || q.Kind == "D"
+		}
+		if !hasD && r.Chance(1, 2) {
+			sc.Reqs = append(sc.Reqs, Rel{Kind: "D"})
+		}
+	}
+	// a caller that gives up while its reload waits for its turn, and a reload after it
+	for i := 0; i+1 < len(sc.Rounds); i++ {
+		if sc.Rounds[i].Pair && sc.Rounds[i+1].Trig == 0 && r.Chance(1, 2) {
+			sc.Rounds[i+1].CtxEnds = true
+			if i+2 >= len(sc.Rounds) {
+				sc.Rounds = append(sc.Rounds, Round{Trig: r.Intn(2), CancelAt: -1})
 			}
 		}
 	}
